@@ -226,6 +226,39 @@ def run(chk: Check) -> None:
                    ok, g.loc(n),
                    "%s destructures/pops '%s' without a dominating non-empty test: an implicit "
                    "ValueError/IndexError would escape instead of TypeNameError" % (g.qualname, lst), 2)
+    # constant-index subscripts of a local token list: guarded by a length test of that list,
+    # or evaluated only after an earlier operand of the same boolean expression
+    for g in inner.values():
+        cfgx = CFG(g.node)
+        for n in walk_no_nested(g.node):
+            if isinstance(n, ast.Subscript) and isinstance(n.value, ast.Name) and isinstance(n.ctx, ast.Load) \
+                    and isinstance(n.slice, (ast.Constant, ast.UnaryOp)) and n.value.id not in g.param_names():
+                lst = n.value.id
+                try:
+                    nn = cfgx.node_of(n)
+                except AnalysisError:
+                    continue
+                # first operand of its test?
+                cur: ast.AST = n
+                par = getattr(cur, "_parent", None)
+                first = True
+                while par is not None and not isinstance(par, ast.stmt):
+                    if isinstance(par, ast.BoolOp) and par.values and not any(
+                            x is cur or any(y is cur for y in ast.walk(x)) for x in par.values[:1]):
+                        first = False
+                    cur, par = par, getattr(par, "_parent", None)
+                nonempty = set()
+                for tn, i in cfgx.info.items():
+                    if i.kind == "test" and isinstance(i.ast, ast.Compare) and "len(%s)" % lst in unparse(i.ast):
+                        for b in cfgx.g.successors(tn):
+                            nonempty.add(b)
+                guarded = bool(nonempty) and cfgx.path_avoiding(cfgx.entry, nn, nonempty) is None
+                n_d += 1
+                chk.ob("R15.3", "%s:%s" % (g.qualname, "".join(ch for ch in unparse(n) if ch.isalnum() or ch in "_[]-")),
+                       guarded or not first, g.loc(n),
+                       "%s indexes the token list '%s' (%s) before anything established that it is "
+                       "non-empty: a name that ends right after '<' raises IndexError instead of "
+                       "TypeNameError" % (g.qualname, lst, unparse(n)), 2)
     chk.floor("R15.3", "destructuring / pop sites", n_d, 3)
     bracket_matching(chk, "R15.4")
     _remainder(chk, f, inner)
